@@ -36,6 +36,10 @@ TRANSFORM_FAULTS = ["t_type_ndarray", "t_type_none", "t_missing_dim", "t_extra_d
 INVERSE_FAULTS = ["i_unknown_mode", "i_unknown_mode_scalar"]
 CONTROLS = ["c_alpha_gt1", "c_extra_variable", "c_scores_extra_dim", "c_reordered_labels"]
 ALL = FIT_FAULTS + TRANSFORM_FAULTS + INVERSE_FAULTS + CONTROLS
+# preprocessing variants the structural transform faults are crossed with: [center, standardize, weights in none / full / partial (1-D along
+# the first feature dimension of every array, the way latitude weights are usually given)]
+PP_VARIANTS = [[True, False, "partial"], [False, False, "none"], [False, True, "none"], [False, False, "partial"], [True, True, "full"], [False, True, "partial"]]
+STRUCTURAL = ["t_missing_dim", "t_extra_dim", "t_renamed_dim", "t_shifted_coord", "t_permuted_new_label", "t_dropped_variable", "t_multiindex_labels"]
 
 
 @st.composite
@@ -50,6 +54,7 @@ def strategy(draw):
     d["cls"] = cls
     d["fault"] = fault
     d["pick"] = draw(st.integers(0, 10_000))
+    d["pp"] = draw(st.one_of(st.none(), st.sampled_from(PP_VARIANTS)))
     return d
 
 
@@ -94,12 +99,19 @@ def extra_cases(tier):
             d["fault"] = fault
             d["pick"] = i
             yield d
+        for i, (cls, fault, pp) in enumerate(itertools.product(CLASSES, STRUCTURAL, PP_VARIANTS)):
+            d = _fixed_case(cls, ("da", "ds", "list")[i % 3], (i // 3) % 3)
+            d.update(fault=fault, pick=i // 7, pp=pp)
+            yield d
         return
     for cls, container, variant, fault in itertools.product(CLASSES, ("da", "ds", "list"), (0, 1, 2), ALL):
         d = _fixed_case(cls, container, variant)
         d["fault"] = fault
         d["pick"] = variant
         yield d
+        if fault in STRUCTURAL:
+            for pp in PP_VARIANTS:
+                yield dict(d, pp=pp)
 
 
 # --------------------------------------------------------------------------------------------
@@ -160,9 +172,22 @@ def map_first(obj, fn):
     return fn(obj)
 
 
+partial_weights = cases.partial_weights
+
+
 def run_case(desc, ctx):
+    pp = desc.get("pp")
+    W = None
+    if pp and desc["cls"] != "multi.CCA":
+        spec = dict(desc["spec"], standardize=pp[1])
+        if M.family(spec["cls"]) == "single":
+            spec["center"] = pp[0]  # (cross-set models always centre)
+        desc = dict(desc, spec=spec, weights=pp[2] == "full")
+        ctx.event(f"pp=center:{pp[0]},std:{pp[1]},weights:{pp[2]}")
     case = cases.build_case(dict(desc, cls=desc["spec"]["cls"]))
     data, sdims = case["data"], case["sdims"]
+    if pp and desc["cls"] != "multi.CCA":
+        W = case["weights"] if pp[2] == "full" else [partial_weights(o, sdims) for o in data] if pp[2] == "partial" else None
     desc = dict(desc, _names=case["names"])
     cls, fault = desc["cls"], desc["fault"]
     cont = desc["lays"][0]["container"]
@@ -180,7 +205,7 @@ def run_case(desc, ctx):
 
     def control_fit():
         m = Model(desc)
-        r = call(ctx, "control_fit_raises", m.fit, data, sdims, disc=disc, refuse=refuse, refuse_if=ri)
+        r = call(ctx, "control_fit_raises", m.fit, data, sdims, W, disc=disc, refuse=refuse, refuse_if=ri)
         return None if isinstance(r, Failed) else m
 
     # ------------------------------------------------------------------ faults at construction / fit
@@ -304,7 +329,8 @@ def run_case(desc, ctx):
             must_raise(ctx, "invalid_transform_answered", m.ad.model.transform, disc=disc)
             return
         elif fault == "t_missing_dim":
-            d_ = fd0[desc["pick"] % len(fd0)]
+            cand = fd0[1:] if (pp and pp[2] == "partial" and len(fd0) > 1) else fd0  # (a dimension the partial weights do not span)
+            d_ = cand[desc["pick"] % len(cand)]
             new[0] = map_first(X0, lambda o: o.isel({d_: 0}, drop=True) if d_ in o.dims else o)
         elif fault == "t_extra_dim":
             new[0] = map_first(X0, lambda o: o.expand_dims(extra_dim=[0, 1]))
